@@ -26,6 +26,8 @@ VALID_POOL = [
     ("{mother} decays to {daughters}", "({mother} decays to {daughters})"),
     ("{mother!s} -> {daughters!s}", "({mother} -> {daughters})"),
     ("[{mother} -> {daughters}]", "[{mother} -> {daughters}]"),
+    ("{mother} -> {daughters}", "{{{mother} -> {daughters}}}"),         # literal braces around sub-decays
+    ("{{top}} {mother} -> {daughters:s}", "({mother} -> {daughters})"),  # literal text in braces, a format spec
 ]
 INVALID_POOL = [
     ("{mother} -> ", "({mother} -> {daughters})"),
@@ -45,6 +47,11 @@ INVALID_POOL = [
     ("{mother} -> {daughters}", "({mother} -> {daughters}{!r})"),
     ("{mother} -> {daughters}{:>4}", "({mother} -> {daughters})"),
     ("{mother} -> {daughters}", "({}{mother} -> {daughters})"),
+    # doubled braces are literal text, not a placeholder; a lone brace is no pattern at all
+    ("{{mother}} => {daughters}", "[{mother} => {daughters}]"),
+    ("{mother} => {daughters}", "[{mother} => {{daughters}}]"),
+    ("{mother} -> {daughters} }", "({mother} -> {daughters})"),
+    ("{mother} -> {daughters}", "({mother} -> { {daughters})"),
     ("", ""),
 ]
 TREE = ("D*+", (("D0", (("K_S0", ("pi+", "pi-")), ("pi0", ("gamma", "gamma")))), "pi+"))
@@ -248,7 +255,7 @@ def run(tier: str, seed: int, replay_path: str | None = None) -> int:
         o.rule = ("behaviours of spec/Descriptor.tla (operation sequences Create/Enter/Exit/Set/Render) replayed with "
                   "real with-blocks; distinct = distinct operation sequences; non-trivial = all (each has >= 1 op)")
         o.assumptions = ["LIFO nesting of with-blocks (Python semantics)",
-                         "abstract pattern ids concretised from pools of 8 valid / 17 invalid spellings"]
+                         "abstract pattern ids concretised from pools of 10 valid / 21 invalid spellings"]
         o.exhaustive = True
     finally:
         tlc.cleanup(wd)
